@@ -112,6 +112,7 @@ type run struct {
 	registered []int
 	insts      []*tExpr
 	byName     map[string]int
+	regAt      map[int]int // number of WalkSets calls made when the root got registered
 }
 
 type walkEv struct{ root, at int }
@@ -283,6 +284,7 @@ func (e *tExpr) dsl() {
 			if a.Root >= 0 && a.Root < len(e.run.ifaces) {
 				if err := eval.Register(e.run.ifaces[a.Root]); err == nil {
 					e.run.registered = append(e.run.registered, a.Root)
+					e.run.regAt[a.Root] = len(e.run.walks)
 				}
 			}
 		case "error":
@@ -441,7 +443,7 @@ func rootIdx(r eval.Root) int {
 }
 
 func build(p *Program) *run {
-	rn := &run{prog: p, byName: map[string]int{}}
+	rn := &run{prog: p, byName: map[string]int{}, regAt: map[int]int{}}
 	curRun = rn
 	for i := range p.Roots {
 		rn.roots = append(rn.roots, &tRoot{run: rn, idx: i, def: &p.Roots[i]})
@@ -463,6 +465,7 @@ func build(p *Program) *run {
 		if q >= 0 && q < len(rn.ifaces) {
 			if err := eval.Register(rn.ifaces[q]); err == nil {
 				rn.registered = append(rn.registered, q)
+				rn.regAt[q] = 0
 			}
 		}
 	}
@@ -782,6 +785,12 @@ func oracle(p *Program, rn *run, pre RootsObs, o Outcome) []oracleOut {
 			fail("too-many-walks", "WalkSets of root %d called %d times", w.root, n+1)
 		}
 	}
+	walkAt := map[int]int{} // index of the first WalkSets call of every root
+	for i, w := range rn.walks {
+		if _, ok := walkAt[w.root]; !ok {
+			walkAt[w.root] = i
+		}
+	}
 	// (3) every dependency is processed before its dependant, in every phase
 	if !stoppedInLoop {
 		for ph := 0; ph < 4; ph++ {
@@ -798,7 +807,10 @@ func oracle(p *Program, rn *run, pre RootsObs, o Outcome) []oracleOut {
 						continue
 					}
 					pd, ok := pos[d]
-					if !ok || pd > pos[r] {
+					if ph == phExec && ok && pd > pos[r] && walkAt[r] < rn.regAt[r] {
+						// r ran as a mere dependency of a registered root, before its own registration
+						fail("dependency-order-of-root-executed-before-registration", "Exec phase: root %d, executed as a dependency before it was registered, ran before root %d it depends on (walk order %v)", r, d, firstWalk[ph])
+					} else if !ok || pd > pos[r] {
 						fail("dependency-order", "%s phase: root %d was walked before root %d it depends on (walk order %v)", phName[ph], r, d, firstWalk[ph])
 					}
 				}
@@ -1226,7 +1238,20 @@ func witnesses() []Program {
 		Sets: [][]ExprD{{src(1, appendAct(0, src(2)))}}}}}
 	w2 := Program{Stream: "witness", Regs: []int{0}, Roots: []RootD{{Deps: []int{}, Prep: true, Val: 1, Fin: true,
 		Sets: [][]ExprD{{src(1)}, {src(2, appendAct(0, src(3)))}}}}}
-	return []Program{w1, w2}
+	// root 0 registers root 1 which depends on 2 which depends on 3; the DSL of root 3
+	// registers 2 and 3: root 2 runs (as a dependency) before it is registered, and before 3
+	w3 := Program{Stream: "witness", Regs: []int{0}, Roots: []RootD{
+		{Deps: []int{}, Sets: [][]ExprD{{src(1, regAct(1))}}, Prep: true, Val: 1, Fin: true},
+		{Deps: []int{2}, Sets: [][]ExprD{{src(2)}}, Prep: true, Val: 1, Fin: true},
+		{Deps: []int{3}, Sets: [][]ExprD{{src(3)}}, Prep: true, Val: 1, Fin: true},
+		{Deps: []int{}, Sets: [][]ExprD{{src(4, regAct(2), regAct(3))}}, Prep: true, Val: 1, Fin: true}}}
+	w4 := Program{Stream: "witness", Regs: []int{4, 0}, Names: []string{"design", "zeta", "m", "alpha", "cors"}, Roots: []RootD{
+		{Deps: []int{}, Sets: [][]ExprD{{src(1)}, {src(2, regAct(1))}}, Fin: true},
+		{Deps: []int{0, 2}, Sets: [][]ExprD{{src(3)}}, Prep: true},
+		{Deps: []int{3, 0}, Sets: [][]ExprD{{src(4, regAct(2))}}, Val: 1},
+		{Deps: []int{0}, Sets: [][]ExprD{{}, {src(5, regAct(3))}}, Fin: true},
+		{Deps: []int{0}, Sets: [][]ExprD{{src(6)}}, Prep: true, Val: 1, Fin: true}}}
+	return []Program{w1, w2, w3, w4}
 }
 
 // hostile: inputs outside the generator's envelope; model and code are compared, the
